@@ -499,6 +499,7 @@ func (eng *Engine) verifyFunction(fn *ssa.Function, con *Contract, bounded int) 
 		pc := &evalCtx{c: c, st: rst, old: c.entry, pkg: pkg, preds: con.Preds, names: c.resolver(fr, nil, rvals), bound: c.lets}
 		for _, en := range con.Ensures {
 			t := pc.boolOf(en.Expr)
+			c.canaryNext = en.Canary
 			o := c.oblige(rst, "post", "postcondition", t, fn.Pos(), "ensures "+en.Text)
 			if o != nil && en.Canary {
 				o.Canary = true
